@@ -175,10 +175,25 @@ def stepEventsWorker (f : List String) (obs : String) : String :=
         s!"{model}\t{mon}\t{tag}"
   | _ => "bad-case\tok\tbad"
 
+/-- the controller's own `Run` loop (runtime behaviour, observed only): every set enqueued before or after `Run` started reaches
+    the control, `Run` does not return before the stop channel closes, returns after it, and leaves the queue shut down -/
+def stepEventsLoop (f : List String) (obs : String) : String :=
+  match f.map String.toNat? with
+  | [some _, some b, some a] =>
+    let model := s!"seen={b + a} early=0 returned=1 shutdown=1 out=ok"
+    let mon := verdict [
+      ("C16.nopanic", fieldD obs "out" == "ok"),
+      ("C16.run.reconciled", fieldD obs "seen" == toString (b + a)),
+      ("C16.run.keepsrunning", fieldD obs "early" == "0"),
+      ("C16.run.stops", fieldD obs "returned" == "1" && fieldD obs "shutdown" == "1")]
+    s!"{model}\t{mon}\trun.loop"
+  | _ => "bad-case\tok\tbad"
+
 def stepEventsWith (L : Lister) (cas obs : String) : String :=
   match cas.splitOn "|" with
   | "H" :: f => stepEventsHandler L f obs
   | "W" :: f => stepEventsWorker f obs
+  | "R" :: f => stepEventsLoop f obs
   | _ => "bad-case\tok\tbad"
 
 /-- the intended behaviour (lister skips a set whose selector does not convert) -/
